@@ -103,10 +103,33 @@ func packageName(dir string) (string, error) {
 	return "", fmt.Errorf("no package clause in %s", dir)
 }
 
+// excludedHarness: harness files dropped because they no longer compile against /repo
+// (a refactoring of private fields); their jobs become inconclusive, the others still run.
+var excludedHarness []string
+
 func loadProgram(pkgDirs []string) (*ssa.Program, map[string]*ssa.Package, error) {
+	var lastErr error
+	for round := 0; round < 4; round++ {
+		prog, pkgs, bad, err := loadProgramOnce(pkgDirs)
+		if err == nil {
+			return prog, pkgs, nil
+		}
+		lastErr = err
+		if len(bad) == 0 {
+			break
+		}
+		excludedHarness = append(excludedHarness, bad...)
+	}
+	return nil, nil, lastErr
+}
+
+func loadProgramOnce(pkgDirs []string) (*ssa.Program, map[string]*ssa.Package, []string, error) {
 	ov, _, err := harnessOverlay(false)
 	if err != nil {
-		return nil, nil, err
+		return nil, nil, nil, err
+	}
+	for _, f := range excludedHarness {
+		delete(ov, f)
 	}
 	cfg := &packages.Config{
 		Mode:    packages.LoadAllSyntax,
@@ -120,7 +143,7 @@ func loadProgram(pkgDirs []string) (*ssa.Program, map[string]*ssa.Package, error
 	}
 	initial, err := packages.Load(cfg, pats...)
 	if err != nil {
-		return nil, nil, err
+		return nil, nil, nil, err
 	}
 	var errs []string
 	packages.Visit(initial, nil, func(p *packages.Package) {
@@ -131,7 +154,19 @@ func loadProgram(pkgDirs []string) (*ssa.Program, map[string]*ssa.Package, error
 		}
 	})
 	if len(errs) > 0 {
-		return nil, nil, fmt.Errorf("load errors (harness no longer compiles against /repo?):\n%s", strings.Join(errs, "\n"))
+		// harness files named in the errors (never the runtime file) can be dropped
+		badSet := map[string]bool{}
+		re := regexp.MustCompile(`(/[^ :]*zz_verif_[A-Za-z0-9_]+\.go):`)
+		for _, e := range errs {
+			if m := re.FindStringSubmatch(e); m != nil && !strings.HasSuffix(m[1], "zz_verif_rt.go") {
+				badSet[m[1]] = true
+			}
+		}
+		var bad []string
+		for f := range badSet {
+			bad = append(bad, f)
+		}
+		return nil, nil, bad, fmt.Errorf("load errors (harness no longer compiles against /repo?):\n%s", strings.Join(errs, "\n"))
 	}
 	prog, pkgs := ssautil.AllPackages(initial, ssa.InstantiateGenerics)
 	prog.Build()
@@ -143,7 +178,7 @@ func loadProgram(pkgDirs []string) (*ssa.Program, map[string]*ssa.Package, error
 		path := initial[i].PkgPath
 		out[strings.TrimPrefix(strings.TrimPrefix(path, oxyRoot), "/")] = p
 	}
-	return prog, out, nil
+	return prog, out, nil, nil
 }
 
 // ---------- known findings ----------
